@@ -11,6 +11,9 @@
 #include "vm_sandbox.hpp"
 #include "trace.hpp"
 
+#include <setjmp.h>
+#include <signal.h>
+
 #include <cstring>
 #include <fstream>
 #include <memory>
@@ -133,7 +136,12 @@ static void observe(tr::Ev& e, const El* obj, size_t n, const void* addr)
 // the adversary redirects it to another in-sandbox string while RLBox runs its range check.
 // A snapshot is acceptable if it comes from the string whose address was read before that
 // (src), or from the new one (alt) provided the new address was range-checked as well.
-static const long ALT = SRC + 1024;
+static long ALT = SRC + 1024; // (second placement: the last two bytes of the region)
+static sigjmp_buf g_pc_jmp;
+static void pc_segv(int)
+{
+  siglongjmp(g_pc_jmp, 1);
+}
 static unsigned char* g_pcell = nullptr;
 static bool g_pcell_written = false;
 static std::string g_checks_after;
@@ -155,9 +163,20 @@ static void pcell_tests()
 {
   auto pp = sb->malloc_in_sandbox<char*>();
   g_pcell = reinterpret_cast<unsigned char*>(pp.UNSAFE_unverified());
+  signal(SIGSEGV, pc_segv);
+  signal(SIGBUS, pc_segv);
+  for (int placement = 0; placement < 2; placement++)
   for (const char* real : { "string/std::string", "string/unique_ptr", "buffer_address", "range/char" }) {
     std::memcpy(MEM + SRC, "\1\2\1\0", 4);
-    std::memcpy(MEM + ALT, "\3\3\3\3\3\0", 6);
+    if (placement == 0) {
+      ALT = SRC + 1024;
+      std::memcpy(MEM + ALT, "\3\3\3\3\3\0", 6);
+    } else {
+      // the other string sits in the last two bytes of the region: whoever copies the length
+      // measured on the first string from there leaves the sandbox (guard page)
+      ALT = 4096 - 2;
+      std::memcpy(MEM + ALT, "\3\0", 2);
+    }
     *pp = sb->UNSAFE_accept_pointer(reinterpret_cast<char*>(BASE + SRC));
     g_pcell_written = false;
     g_checks_after.clear();
@@ -165,6 +184,9 @@ static void pcell_tests()
     std::string region = "none";
     auto classify = [&](const char* s) { region = s[0] == 1 ? "src" : s[0] == 3 ? "alt" : "other"; };
     const char* outc = "ok";
+    if (sigsetjmp(g_pc_jmp, 1) != 0) {
+      outc = "fault"; // a read beyond the sandbox ended in the guard page
+    } else
     try {
       std::string r = real;
       if (r == "string/std::string") {
@@ -194,6 +216,7 @@ static void pcell_tests()
     Sbx::same_sandbox_hook = nullptr;
     tr::Ev e("pcopy");
     e.str("real", real).str("out", outc).str("region", region).boolean("redirected", g_pcell_written);
+    e.str("alt", placement == 0 ? "interior" : "last-bytes");
     e.raw("checks_after", "[" + g_checks_after + "]");
     out.put(e);
   }
